@@ -19,7 +19,7 @@
 (***************************************************************************)
 EXTENDS Naturals, Integers, Sequences, FiniteSets, RefRead, MacroCorpus, Json, TLC
 
-CONSTANTS MinusFusion, ColonFusion, FuseAnyLiteral, DotAlways, Quick
+CONSTANTS MinusFusion, ColonFusion, FuseAnyLiteral, RawStringNames, DotAlways, Quick
 
 M == INSTANCE MacroModel
 
